@@ -65,6 +65,10 @@ func (s *Sim) opReset(op *Op) {
 		s.violate("C16", "reset.empty", fmt.Sprintf("used=%v/filters=%v/observers=%v/locked=%v", st.Entities.Used != 0, st.CachedFilters != 0, st.Observers != 0, st.Locked), false,
 			"after Reset: Used=%d CachedFilters=%d Observers=%d Locked=%v", st.Entities.Used, st.CachedFilters, st.Observers, st.Locked)
 	}
+	if st.Entities.Total != 0 || st.Entities.Recycled != 0 {
+		// (as on a new world: LoadEntities, for one, accepts only a world whose pool is empty)
+		s.violate("C16", "reset.empty", "pool", false, "after Reset the entity pool still holds entities: Total=%d Recycled=%d", st.Entities.Total, st.Entities.Recycled)
+	}
 	if n := len(s.allHandles()); n != 0 {
 		s.violate("C16", "reset.empty", "filter0", false, "after Reset a Filter0 query still visits %d entities", n)
 	}
@@ -674,8 +678,22 @@ func (s *Sim) opDumpLoad(op *Op) {
 		w2 = ecs.NewWorld(capN)
 		// reset world: populate and reset first
 		m := ecs.NewMap[T02](w2)
+		var hs []ecs.Entity
 		for i := 0; i < abs(op.N)%7+1; i++ {
-			m.NewEntity(&T02{V: 1})
+			hs = append(hs, m.NewEntity(&T02{V: 1}))
+		}
+		// the world that is reset may have any history: all of its entities or some of them
+		// removed (a free list, generations above zero), or all alive
+		switch abs(op.N/3) % 3 {
+		case 1:
+			for _, h := range hs {
+				w2.RemoveEntity(h)
+			}
+			s.C.Faults["load_into_reset_world_all_dead_before"]++
+		case 2:
+			for i := len(hs) - 1; i >= 0; i -= 2 {
+				w2.RemoveEntity(hs[i])
+			}
 		}
 		w2.Reset()
 		s.C.Faults["load_into_reset_world"]++
@@ -699,6 +717,10 @@ func (s *Sim) opDumpLoad(op *Op) {
 	})
 	for _, h := range handles {
 		a, b := s.W.Alive(h), w2.Alive(h)
+		if !a && b {
+			// (C02 counts dump/load among the histories: a removed handle is never alive again)
+			s.violate("C02", "pool.alive", "after_load", false, "handle %v was removed before the dump and is alive in the world that loaded it", h)
+		}
 		if a != b {
 			s.violate("C17", "dump.alive", "mismatch", false, "handle %v: alive=%v in the source world, %v after loading the dump", h, a, b)
 			return
@@ -752,6 +774,7 @@ func (s *Sim) opDumpLoad(op *Op) {
 	// dump.next: consecutive creations return the same handles in both worlds.
 	// The creations in the source world are ordinary NewEntity ops of the history.
 	k := abs(op.N)%50 + 1
+	var issuedBefore map[ecs.Entity]bool
 	for i := 0; i < k; i++ {
 		n := len(s.M.Ents)
 		s.opNewEntity(&Op{K: KNewEntity, P: PWorld})
@@ -760,6 +783,16 @@ func (s *Sim) opDumpLoad(op *Op) {
 		}
 		src := s.M.Ents[n].H
 		h := w2.NewEntity()
+		if issuedBefore == nil {
+			issuedBefore = map[ecs.Entity]bool{}
+			for _, x := range handles {
+				issuedBefore[x] = true
+			}
+		}
+		if issuedBefore[h] {
+			// the world that loaded the dump continues the life of the dumped one (C02: dump/load is part of the histories)
+			s.violate("C02", "pool.unique", "after_load", false, "creation %d in the world that loaded the dump returned %v, a handle the dumped world had issued before the dump", i, h)
+		}
 		if h != src {
 			s.violate("C17", "dump.next", "handle", false, "creation %d after loading returned %v, the source world returned %v", i, h, src)
 			return
